@@ -9,6 +9,7 @@ import StamModel.Driver.Tp
 import StamModel.Driver.Ql
 import StamModel.Driver.Wj
 import StamModel.Driver.Wd
+import StamModel.Driver.Cr
 import StamModel.Driver.Cc
 import StamModel.Driver.Tid
 import StamModel.Driver.Hs
@@ -33,6 +34,7 @@ def step (line : String) : String :=
   | "ql" :: args => ql args
   | "wj" :: args => wj args
   | "wd" :: args => wd args
+  | "cr" :: args => cr args
   | "cc" :: args => cc args
   | "tid" :: args => tid args
   | "hs" :: args => hs args
